@@ -248,6 +248,32 @@ def same_value_probe(chk):
             shutil.rmtree(scratch, ignore_errors=True)
 
 
+def back_and_forth_probe(chk):
+    """a property set to A, then B, then A again (the metadata file returns to bytes it had before):
+    it must read A; likewise across two properties and with a member write in between"""
+    for fe in ("wsgi", "aiohttp"):
+        scratch = scratch_dir()
+        srv = make_server(fe, scratch + "/data", prefix="/")
+        try:
+            for cp, prop, a, b in ((CAL, "displayname", "Red team", "Blue team"),
+                                   (CAL, "calendar-color", "#ff0000", "#0000ff"),
+                                   (BOOK, "addressbook-description", "first", "second"),
+                                   (BOOK, "displayname", "x", "y z")):
+                hist = []
+                for step, val in enumerate([a, b, a, b, a]):
+                    st = set_prop(srv, "/", cp, prop, val)
+                    hist.append(["PROPPATCH", cp, prop, val, st])
+                    got = read_props(srv, "/", cp, [prop])
+                    chk.case(("back-and-forth", fe, cp, prop, step))
+                    if st == "200" and got and got[prop] != ("200", val):
+                        chk.violation("C15:property-read-differs-from-acknowledged-set:" + prop + "@" + fe,
+                                      f"{prop} of {cp} set to {val!r} (200) — a value it had before — reads back {got[prop]!r}",
+                                      {"level": "http", "frontend": fe, "prefix": "/", "history": hist})
+        finally:
+            srv.close()
+            shutil.rmtree(scratch, ignore_errors=True)
+
+
 def multiline_probe(chk):
     """Deterministic replay of the recorded finding KF-C15-multiline (and its safe neighbours)."""
     for fe in ("wsgi", "aiohttp"):
@@ -350,6 +376,7 @@ def run(chk):
     http_part(chk, 4 if quick else 40, 14 if quick else 30)
     multiline_probe(chk)
     same_value_probe(chk)
+    back_and_forth_probe(chk)
     gitconfig_part(chk, 3 if quick else 40, 15 if quick else 40)
 
 
